@@ -178,3 +178,94 @@ func zzH_TRrec() {
 	t.Close()
 	vReach("end")
 }
+
+// zzH_C15: housekeeping versus a busy connection. A holder goroutine makes a long call (the server
+// answers only at the end); meanwhile housekeeping ticks fire (clock symbolic: the connection may
+// look arbitrarily old) and CloseIdleConnections runs. The busy connection must not be closed and the
+// call must succeed. Afterwards the unused connection is reclaimed and Close closes everything.
+func zzH_C15() {
+	z := &zzWorld{up: map[string]bool{"a": true, "b": true}, dials: map[string]int{}}
+	lim := [][2]int{{1, 1}, {2, 2}}[vChoose("limits", 2)]
+	t := zzNewTransport(z, lim[0], lim[1])
+	vSetTimerBudget(vParam("c15.ticks", 2))
+	arg := []byte{0x31}
+	var reply []byte
+	warm := vChoose("warm", 2) == 1
+	if warm {
+		// an earlier call leaves a pooled connection that may be retired before the long call
+		var r0 []byte
+		vAssert(t.Call("a", "S.Echo", &arg, &r0) == nil, "warm-up-call-ok")
+		vQuiesce()
+	}
+	for _, m := range z.conns {
+		m.auto = false
+		m.out = make(chan []byte, 8)
+	}
+	autoOff := func() {
+		for _, m := range z.conns {
+			if m.out == nil {
+				m.auto = false
+				m.out = make(chan []byte, 8)
+			}
+		}
+	}
+	var err error
+	returned := false
+	vGo("holder", func() {
+		err = t.Call("a", "S.Echo", &arg, &reply)
+		returned = true
+	})
+	if vParam("c15.racy", 0) == 0 {
+		vYield()
+	}
+	autoOff()
+	// find the connection carrying the long call (the one with an unanswered request)
+	var busy *zzMsgs
+	var req pbRequest
+	step := func() {
+		if busy != nil {
+			return
+		}
+		autoOff()
+		for _, m := range z.conns {
+			if m.out != nil && len(m.out) > 0 {
+				f := <-m.out
+				var r pbRequest
+				r.Unmarshal(f)
+				if len(r.Upgrade) == 0 {
+					busy = m
+					req = r
+				} else {
+					m.deliver(zzResponse(r.Seq, "", nil)) // answer housekeeping pings
+				}
+			}
+		}
+	}
+	for i := 0; i < vParam("c15.ops", 2); i++ {
+		step()
+		switch vChoose("op", 2) {
+		case 0:
+			vQuiesce() // ticks may fire here
+		case 1:
+			t.CloseIdleConnections()
+		}
+		step()
+		if busy != nil {
+			vAssert(busy.nCloses == 0, "busy-connection-not-closed-by-housekeeping")
+		}
+	}
+	step()
+	if busy != nil {
+		busy.deliver(zzResponse(req.Seq, "", zzReplyFor(req.Args)))
+	}
+	vQuiesce()
+	if busy != nil {
+		vAssert(returned && err == nil && vEqBytes(reply, zzReplyFor(arg)), "long-call-succeeds")
+	}
+	t.Close()
+	vAtEnd(func() {
+		vAssert(returned, "holder-returns")
+		vAssert(z.live("a") == 0 && z.live("b") == 0, "close-closes-every-connection")
+		vReach("end")
+	})
+}
